@@ -125,7 +125,7 @@ def run_unit(unit, rec):
         kind, info = expected_domain([list(d) for d in doms])
         cls = "identical" if identical else {"reject": "no-overlap", "open": "overlap<step", "ok": "overlap"}[kind]
         rec.state(tup)
-        layouts = ["eye-last"] if k >= 3 and tup[1] != tup[-1] else ["eye-last", "eye-axis0", "rank3-axis1", "rank3-axis0", "rank4-axis1", "stack", "concat", "rank1"]
+        layouts = ["eye-last"] if k >= 3 and tup[1] != tup[-1] else ["eye-last", "eye-axis0", "rank3-axis1", "rank3-axis0", "rank4-axis1", "stack", "stack-last", "stack-neg2", "concat", "concat-neg", "rank1"]
         if "pool" in unit:
             layouts = ["stack", "rank1"]
         for lay in layouts:
@@ -151,9 +151,13 @@ def run_unit(unit, rec):
                     else:
                         arrs.append(np.multiply.outer(np.array([1.0, -2.0, 0.5, 4.0]), blk))  # (4, n, 2, 3)
                         axes = 1
-                elif lay == "stack":
+                elif lay in ("stack", "stack-last", "stack-neg2"):
                     arrs.append(np.stack([np.arange(n) * 1.0, (np.arange(n) % 2) * 2.0 - 0.5]))
-                    kw = dict(stack_axis=0)
+                    # the new axis counted from the front or from the end (the stacked result has one axis more than the arrays)
+                    kw = dict(stack_axis={"stack": 0, "stack-last": -1, "stack-neg2": -2}[lay])
+                elif lay == "concat-neg":
+                    arrs.append(E)
+                    kw = dict(stack_axis=-2, concatenate=True)
                 elif lay == "concat":
                     arrs.append(E)
                     kw = dict(stack_axis=0, concatenate=True)
@@ -195,7 +199,7 @@ def run_unit(unit, rec):
                 rec.distinct((tup, lay, frame))
                 okd = np.array_equal(nd, doms[0])
                 if kw:
-                    ref = np.concatenate(arrs, axis=0) if kw.get("concatenate") else np.stack(arrs, axis=0)
+                    ref = np.concatenate(arrs, axis=kw["stack_axis"]) if kw.get("concatenate") else np.stack(arrs, axis=kw["stack_axis"])
                     oka = np.array_equal(np.asarray(out), ref)
                 else:
                     oka = len(out) == len(arrs) and all(np.array_equal(o, a) for o, a in zip(out, arrs))
@@ -225,7 +229,7 @@ def run_unit(unit, rec):
                 ax = -1 if axes is None else (axes if isinstance(axes, int) else axes[0])
                 exp.append(np.moveaxis(np.tensordot(M, np.moveaxis(a, ax, 0), axes=([1], [0])), 0, ax))
             if kw:
-                expo = np.concatenate(exp, axis=0) if kw.get("concatenate") else np.stack(exp, axis=0)
+                expo = np.concatenate(exp, axis=kw["stack_axis"]) if kw.get("concatenate") else np.stack(exp, axis=kw["stack_axis"])
                 okc = np.shape(out) == expo.shape and np.max(np.abs(np.asarray(out) - expo)) <= tolv * (1 + np.max(np.abs(expo)))
             else:
                 okc = len(out) == len(exp) and all(np.shape(o) == e.shape and np.max(np.abs(np.asarray(o) - e)) <= tolv * (1 + np.max(np.abs(e))) for o, e in zip(out, exp))
